@@ -438,14 +438,16 @@ def intsOf : List Field → List Int
   | .int i :: t => i :: intsOf t
   | _ :: t => intsOf t
 
+/-- `ms.package_count` : the integers of the `package_count` attribute -/
+def packageCounts (hdr : List (String × MetaVal)) : List Int :=
+  match lookupMeta hdr "package_count" with
+  | some (.list l) => intsOf l
+  | _ => []
+
 /-- `O2JMapSet.read(b)` -/
 def readFile (bs : List Nat) : Except Err FileOut := do
   let hdr ← readMeta bs
-  let counts : List Int :=
-    match lookupMeta hdr "package_count" with
-    | some (.list l) => intsOf l
-    | _ => []
-  let lvls ← readLevels counts (bs.drop 300) []
+  let lvls ← readLevels (packageCounts hdr) (bs.drop 300) []
   let init ← match lookupMeta hdr "bpm" with
     | some (.flt (.fin q)) => .ok q
     | some (.flt _) => .error Err.nonfinite
